@@ -8,6 +8,7 @@ import CtrlVerif.Props.C15GenReduce
 import CtrlVerif.Props.C15Flag
 import CtrlVerif.Props.C15GenMinreal
 import CtrlVerif.Props.C15GenMinrealC
+import CtrlVerif.Props.C15GenMinrealSem
 
 #print axioms CtrlVerif.C15.timescale_resp
 #print axioms CtrlVerif.C15.similarity_relations
@@ -109,3 +110,5 @@ import CtrlVerif.Props.C15GenMinrealC
 #print axioms CtrlVerif.C15GenMinreal.default_tol_sq
 #print axioms CtrlVerif.C15GenMinreal.default_tol_pos
 #print axioms CtrlVerif.C15GenMinreal.generated_close_eq_closeQI
+#print axioms CtrlVerif.C15GenMinreal.generated_entryBody_sem
+#print axioms CtrlVerif.C15GenMinreal.generated_zLoop_relative_degree
